@@ -106,6 +106,10 @@ class Converter(abc.ABC, t.Generic[T_co]):
 @dataclasses.dataclass
 class AnyConverter(Converter[t.Any]):
     """Converter for ``t.Any``."""
+    def into_data(self, val: t.Any) -> DataType:
+        """See [`Converter.into_data`][pane.converters.Converter.into_data]"""
+        return into_data(val, None)
+
     def try_convert(self, val: t.Any) -> t.Any:
         """See [`Converter.try_convert`][pane.converters.Converter.try_convert]"""
         return val
@@ -176,6 +180,10 @@ class NoneConverter(Converter[None]):
     Converter which accepts only ``None``.
     """
 
+    def into_data(self, val: t.Any) -> DataType:
+        """See [`Converter.into_data`][pane.converters.Converter.into_data]"""
+        return into_data(val, None)
+
     def try_convert(self, val: t.Any) -> None:
         """See [`Converter.try_convert`][pane.converters.Converter.try_convert]"""
         if val is None:
@@ -200,6 +208,10 @@ class LiteralConverter(Converter[T_co]):
     """
 
     vals: t.Sequence[T_co]
+
+    def into_data(self, val: t.Any) -> DataType:
+        """See [`Converter.into_data`][pane.converters.Converter.into_data]"""
+        return into_data(val, None)
 
     def try_convert(self, val: t.Any) -> T_co:
         """See [`Converter.try_convert`][pane.converters.Converter.try_convert]"""
